@@ -204,6 +204,126 @@ theorem splitLaw_psl (lines : List Str) (n : Str) (hwf : wfNetloc n = true)
       have := pslSplit_rejoin lines _ d s (by rw [lower_idem]; exact head_lower hhead) hds
       rw [this, C08.hostStr, lower_idem, rstrip_dot_id (getLast_lower hlast)]
 
+/-! ## what else holds of `pslSplit` without any hypothesis -/
+
+theorem mem_join_c13 {sep : Str} {L : List Str} {c : Char} (h : c ∈ join sep L) :
+    c ∈ sep ∨ ∃ p ∈ L, c ∈ p := by
+  induction L with
+  | nil => simp [join] at h
+  | cons a rest ih =>
+    cases rest with
+    | nil => exact Or.inr ⟨a, by simp, by simpa [join] using h⟩
+    | cons b r =>
+      simp only [join, List.mem_append] at h
+      rcases h with (h | h) | h
+      · exact Or.inr ⟨a, by simp, h⟩
+      · exact Or.inl h
+      · rcases ih h with h' | ⟨p, hp, hx⟩
+        · exact Or.inl h'
+        · exact Or.inr ⟨p, List.mem_cons_of_mem _ hp, hx⟩
+
+theorem mem_join_of_mem_c13 (sep : Str) {L : List Str} {p : Str} (hp : p ∈ L) {c : Char}
+    (hc : c ∈ p) : c ∈ join sep L := by
+  induction L with
+  | nil => cases hp
+  | cons a rest ih =>
+    cases rest with
+    | nil =>
+      simp only [List.mem_singleton] at hp
+      subst hp; simpa [join] using hc
+    | cons b r =>
+      simp only [join, List.mem_append]
+      rcases List.mem_cons.mp hp with e | e
+      · subst e; exact Or.inl (Or.inl hc)
+      · exact Or.inr (ih e)
+
+theorem mem_of_mem_rstripChars {s : Str} {cs : List Char} {c : Char} (h : c ∈ rstripChars s cs) :
+    c ∈ s := by
+  unfold rstripChars at h
+  rw [List.mem_reverse] at h
+  exact List.mem_reverse.mp ((List.dropWhile_suffix _).subset h)
+
+/-- the labels the walk sees are made of characters of the lower-cased hostname -/
+theorem mem_hostParts {hn p : Str} (hp : p ∈ SuffixTrie.hostParts hn) {c : Char} (hc : c ∈ p) :
+    c ∈ lower hn := by
+  unfold SuffixTrie.hostParts at hp
+  have := mem_join_of_mem_c13 ['.'] hp hc
+  rw [join_splitOn_c08] at this
+  exact mem_of_mem_rstripChars this
+
+/-- **the two parts `pslSplit` returns are made of dots and of characters of the lower-cased
+hostname** — every line list, every hostname -/
+theorem mem_pslSplit (lines : List Str) (hn d s : Str) (h : pslSplit lines hn = some (d, s))
+    {c : Char} (hc : c ∈ d ∨ c ∈ s) : c = '.' ∨ c ∈ lower hn := by
+  rw [pslSplit_spec] at h
+  cases hl : C08.hostLen lines hn with
+  | none => simp [hl] at h
+  | some n =>
+    simp only [hl, Option.map_some, Option.some.injEq, Prod.mk.injEq] at h
+    obtain ⟨hd, hs⟩ := h
+    have key : ∀ L : List Str, (∀ p ∈ L, p ∈ SuffixTrie.hostParts hn) →
+        c ∈ join SuffixTrie.dot L → c = '.' ∨ c ∈ lower hn := by
+      intro L hL hm
+      rcases mem_join_c13 hm with h | ⟨p, hp, hcp⟩
+      · left; simpa [SuffixTrie.dot] using h
+      · right; exact mem_hostParts (hL p hp) hcp
+    rcases hc with hc | hc
+    · rw [← hd] at hc; exact key _ (fun p hp => List.mem_of_mem_take hp) hc
+    · rw [← hs] at hc; exact key _ (fun p hp => List.mem_of_mem_drop hp) hc
+
+/-- what `splitSuffixParsed` hands over when it answers -/
+theorem splitSuffixParsed_some {sp : Str → Option (Str × Str)} {n d s : Str}
+    (h : splitSuffixParsed sp n = some (d, s)) : sp (pyHostname n) = some (d, s) := by
+  unfold splitSuffixParsed at h
+  simp only at h
+  split at h
+  · cases h
+  · split at h
+    · cases h
+    · exact h
+
+/-- **no `|` in the netloc, no `|` in the two parts of the public-suffix split** — for the model
+of suffix_trie.py nothing has to be assumed (any netloc, any suffix list; trailing dots, leading
+dots, `%` included) -/
+theorem split_nobar_psl (lines : List Str) {n : Str} (hb : '|' ∉ n) :
+    ∀ d s, splitSuffixParsed (pslSplit lines) n = some (d, s) → '|' ∉ d ∧ '|' ∉ s := by
+  intro d s hds
+  have h := splitSuffixParsed_some hds
+  have key : ∀ {c : Char}, c = '|' → (c ∈ d ∨ c ∈ s) → False := by
+    intro c e hc
+    subst e
+    rcases mem_pslSplit lines _ d s h hc with h1 | h1
+    · revert h1; decide
+    · exact hb (Ural.LruString.mem_pyHostname (by decide) (by decide)
+        (mem_of_mem_lower (by decide) h1))
+  exact ⟨fun hm => key rfl (Or.inl hm), fun hm => key rfl (Or.inr hm)⟩
+
+/-- `pslSplit` looks at the lower-cased hostname only -/
+theorem pslSplit_lower_congr (lines : List Str) {a b : Str} (e : lower a = lower b) :
+    pslSplit lines a = pslSplit lines b := by
+  have hp : SuffixTrie.hostParts a = SuffixTrie.hostParts b := by
+    unfold SuffixTrie.hostParts; rw [e]
+  simp only [pslSplit, pslSplitT, splitOfLen, hostLenT, hp]
+
+/-- **C08's case clause for the model of suffix_trie.py**: the hypothesis `SplitCaseInv` of the
+C12 fixed-point theorem (plain hosts with `%`) holds for `pslSplit lines` on every netloc -/
+theorem splitCaseInv_psl (lines : List Str) (n : Str) : SplitCaseInv (pslSplit lines) n := by
+  intro h' e _ _
+  exact pslSplit_lower_congr lines e
+
+/-- **C08's re-join clause for the model of suffix_trie.py, `%` allowed**: `SplitLaw` holds on
+every plain host (no `:[]`) that neither starts nor ends with a dot (generalises `splitLaw_psl`:
+`dnsName` also excludes `%`) -/
+theorem splitLaw_psl_plain (lines : List Str) (n : Str) (hwf : wfNetloc n = true)
+    (hp : Plain (specHost n)) (hhead : (specHost n).head? ≠ some '.')
+    (hlast : (specHost n).getLast? ≠ some '.') : SplitLaw (pslSplit lines) n := by
+  intro d s hds
+  rw [hostSplit_plain _ hp] at hds
+  have h := splitSuffixParsed_some hds
+  have hl := lower_pyHostname_plain hwf hp
+  have := pslSplit_rejoin lines _ d s (by rw [hl]; exact head_lower hhead) h
+  rw [this, C08.hostStr, hl, rstrip_dot_id (getLast_lower hlast)]
+
 /-! ## the public suffix of a subdomain -/
 
 /-- **the public suffix of a subdomain that does not swallow the parent domain is the parent's**
@@ -307,22 +427,19 @@ theorem hostSplit_congr (sp : Str → Option (Str × Str)) {nu nv : Str} (hwu : 
   unfold hostSplit splitSuffixParsed
   rw [e, hh]
 
-/-- **forward, `suffix_aware = True`, the hypotheses only where they are needed**: when the two
-hosts are equal nothing is asked of `split_suffix`; when `v`'s host is a strict subdomain, the
-hosts are names, C08's clause holds for both and the public suffix is the same.  (Generalises
-`stems_prefix_of_under_partial`.) -/
-theorem stems_prefix_of_under_sub (sp : Str → Option (Str × Str)) (u v : Parts)
+/-- forward, `suffix_aware = True`, the hypotheses only where they are needed, for any reading
+`segs` of the path segments (core of `stems_prefix_of_under_sub` and of its raw form) -/
+theorem keyG_prefix_of_under_sub (sp : Str → Option (Str × Str)) (segs : Str → List Str)
+    (u v : Parts)
     (hwu : wfNetloc u.netloc = true) (hwv : wfNetloc v.netloc = true)
     (hnu : noUserinfo u.netloc = true)
     (hsub : strictSub (specHost u.netloc) (specHost v.netloc) = true →
       labelHost (specHost u.netloc) = true ∧ labelHost (specHost v.netloc) = true ∧
         SplitLaw sp u.netloc ∧ SplitLaw sp v.netloc ∧ SameSuffixSplit sp u.netloc v.netloc)
-    (h : Under u v) :
-    cleanTrailingPath (lruStems sp true u) <+: cleanTrailingPath (lruStems sp true v) := by
-  rw [clean_lruStems, clean_lruStems]
-  apply List.IsPrefix.map
-  rw [keyStems_prefix_iff sp true u v hnu hwu hwv]
-  apply under_to_nested id u v (fun e => by rw [e]; exact List.prefix_refl _) _ _ h
+    (h : UnderByG segs id u v) :
+    keyStemsG sp segs true u <+: keyStemsG sp segs true v := by
+  rw [keyStemsG_prefix_iff sp segs true u v hnu hwu hwv]
+  apply under_to_nestedG segs id u v (fun e => by rw [e]; exact List.prefix_refl _) _ _ h
   · intro e
     simp only [id] at e
     simp only [hostStems_spec, if_true]
@@ -342,6 +459,21 @@ theorem stems_prefix_of_under_sub (sp : Str → Option (Str × Str)) (u v : Part
       rw [hsu du s a, hsv dv s b, hpre, lower_append, lower_cons]
       simp [lowerChar]
 
+/-- **forward, `suffix_aware = True`, the hypotheses only where they are needed**: when the two
+hosts are equal nothing is asked of `split_suffix`; when `v`'s host is a strict subdomain, the
+hosts are names, C08's clause holds for both and the public suffix is the same.  (Generalises
+`stems_prefix_of_under_partial`.) -/
+theorem stems_prefix_of_under_sub (sp : Str → Option (Str × Str)) (u v : Parts)
+    (hwu : wfNetloc u.netloc = true) (hwv : wfNetloc v.netloc = true)
+    (hnu : noUserinfo u.netloc = true)
+    (hsub : strictSub (specHost u.netloc) (specHost v.netloc) = true →
+      labelHost (specHost u.netloc) = true ∧ labelHost (specHost v.netloc) = true ∧
+        SplitLaw sp u.netloc ∧ SplitLaw sp v.netloc ∧ SameSuffixSplit sp u.netloc v.netloc)
+    (h : Under u v) :
+    cleanTrailingPath (lruStems sp true u) <+: cleanTrailingPath (lruStems sp true v) := by
+  rw [clean_lruStems, clean_lruStems, keyStems_eq_G, keyStems_eq_G]
+  exact (keyG_prefix_of_under_sub sp cleanSegs u v hwu hwv hnu hsub h).map render
+
 /-- the hosts of the suffix-aware forward law: DNS names, `u`'s host outside `v`'s public suffix
 (by the list) — or the same public suffix anyway (`co.uk` / `a.co.uk`) -/
 def PslNames (lines : List Str) (nu nv : Str) : Prop :=
@@ -350,18 +482,14 @@ def PslNames (lines : List Str) (nu nv : Str) : Prop :=
     (outsideSuffixT (SuffixTrie.build lines) nu nv = true ∨
       SameSuffixSplit (pslSplit lines) nu nv)
 
-/-- **forward, `suffix_aware = True`, with suffix_trie.py inside** (every suffix list): if `v`
-lies under `u` and — when `v`'s host is a strict subdomain of `u`'s — both are DNS names with
-`u`'s host outside `v`'s public suffix (or with the same public suffix), the stems of `u` (empty
-path stems aside) are a prefix of the stems of `v`.  Nothing is assumed about `split_suffix`. -/
-theorem stems_prefix_of_under_psl (lines : List Str) (u v : Parts)
+/-- what `PslNames` gives when `v`'s host is a strict subdomain of `u`'s (equal hosts are not) -/
+theorem sub_hyps_psl (lines : List Str) (u v : Parts)
     (hwu : wfNetloc u.netloc = true) (hwv : wfNetloc v.netloc = true)
-    (hnu : noUserinfo u.netloc = true)
-    (hhosts : specHost u.netloc = specHost v.netloc ∨ PslNames lines u.netloc v.netloc)
-    (h : Under u v) :
-    cleanTrailingPath (lruStems (pslSplit lines) true u) <+:
-      cleanTrailingPath (lruStems (pslSplit lines) true v) := by
-  apply stems_prefix_of_under_sub (pslSplit lines) u v hwu hwv hnu _ h
+    (hhosts : specHost u.netloc = specHost v.netloc ∨ PslNames lines u.netloc v.netloc) :
+    strictSub (specHost u.netloc) (specHost v.netloc) = true →
+      labelHost (specHost u.netloc) = true ∧ labelHost (specHost v.netloc) = true ∧
+        SplitLaw (pslSplit lines) u.netloc ∧ SplitLaw (pslSplit lines) v.netloc ∧
+        SameSuffixSplit (pslSplit lines) u.netloc v.netloc := by
   intro hs
   rcases hhosts with e | ⟨l1, l2, d1, d2, hreg⟩
   · -- equal hosts are not strict subdomains of each other
@@ -376,28 +504,82 @@ theorem stems_prefix_of_under_psl (lines : List Str) (u v : Parts)
     · exact sameSuffixSplit_of_outside lines _ _ hwu hwv d1 d2 hs ho
     · exact hsame
 
-/-- … and the serialised LRU of `u` is a string prefix of that of `v` (`|`-free URLs) -/
+/-- **forward, `suffix_aware = True`, with suffix_trie.py inside** (every suffix list): if `v`
+lies under `u` and — when `v`'s host is a strict subdomain of `u`'s — both are DNS names with
+`u`'s host outside `v`'s public suffix (or with the same public suffix), the stems of `u` (empty
+path stems aside) are a prefix of the stems of `v`.  Nothing is assumed about `split_suffix`. -/
+theorem stems_prefix_of_under_psl (lines : List Str) (u v : Parts)
+    (hwu : wfNetloc u.netloc = true) (hwv : wfNetloc v.netloc = true)
+    (hnu : noUserinfo u.netloc = true)
+    (hhosts : specHost u.netloc = specHost v.netloc ∨ PslNames lines u.netloc v.netloc)
+    (h : Under u v) :
+    cleanTrailingPath (lruStems (pslSplit lines) true u) <+:
+      cleanTrailingPath (lruStems (pslSplit lines) true v) :=
+  stems_prefix_of_under_sub (pslSplit lines) u v hwu hwv hnu
+    (sub_hyps_psl lines u v hwu hwv hhosts) h
+
+/-- **the RAW stems, `suffix_aware = True`, suffix_trie.py inside**: the same for `lru_stems(u)` as
+it is returned (no `clean_trailing_path`), when `v` lies under `u` with the path segments read as
+they are (`UnderRaw`) -/
+theorem stems_prefix_of_under_raw_psl (lines : List Str) (u v : Parts)
+    (hwu : wfNetloc u.netloc = true) (hwv : wfNetloc v.netloc = true)
+    (hnu : noUserinfo u.netloc = true)
+    (hhosts : specHost u.netloc = specHost v.netloc ∨ PslNames lines u.netloc v.netloc)
+    (h : UnderRaw u v) :
+    lruStems (pslSplit lines) true u <+: lruStems (pslSplit lines) true v := by
+  rw [lruStems_eq_G, lruStems_eq_G]
+  exact (keyG_prefix_of_under_sub (pslSplit lines) rawSegs u v hwu hwv hnu
+    (sub_hyps_psl lines u v hwu hwv hhosts) h).map render
+
+/-- the stems of every 5-tuple without `|` are well formed (non-empty, tagged, `|`-free), both
+modes, with suffix_trie.py inside: nothing assumed about the split, any host -/
+theorem stems_ok_psl (lines : List Str) (sa : Bool) (p : Parts) (hb : noBar p = true) :
+    StemsOK (lruStems (pslSplit lines) sa p) := by
+  apply C12.stems_wellformed_of_split (pslSplit lines) sa p hb
+  intro _ _
+  apply split_nobar_psl lines
+  intro hm
+  simp only [noBar, Bool.and_eq_true] at hb
+  have := noneOf_iff.mp hb.1.1.1.2 _ hm
+  simp at this
+
+/-- … and the serialisation of the cleaned stems of `u` is a string prefix of that of `v`
+(`|`-free URLs; equal hosts — bracketed literals, trailing dots, … — included: no hypothesis
+about `split_suffix`) -/
 theorem lru_prefix_of_under_psl (lines : List Str) (u v : Parts)
     (hwu : wfNetloc u.netloc = true) (hwv : wfNetloc v.netloc = true)
     (hnu : noUserinfo u.netloc = true)
     (hhosts : specHost u.netloc = specHost v.netloc ∨ PslNames lines u.netloc v.netloc)
-    (hlu : SplitLaw (pslSplit lines) u.netloc) (hlv : SplitLaw (pslSplit lines) v.netloc)
     (hbu : noBar u = true) (hbv : noBar v = true) (h : Under u v) :
     serializeLru (cleanTrailingPath (lruStems (pslSplit lines) true u)) <+:
       serializeLru (cleanTrailingPath (lruStems (pslSplit lines) true v)) := by
-  have cu := clean_stems_ok (pslSplit lines) true u hbu (fun _ => hlu)
-  have cv := clean_stems_ok (pslSplit lines) true v hbv (fun _ => hlv)
+  have cu := clean_stems_ok_of (pslSplit lines) true u (stems_ok_psl lines true u hbu)
+  have cv := clean_stems_ok_of (pslSplit lines) true v (stems_ok_psl lines true v hbv)
   rw [serialize_prefix_iff _ _ cu.1 cv.1 cu.2 cv.2]
   exact stems_prefix_of_under_psl lines u v hwu hwv hnu hhosts h
 
-/-- **on URL strings** (the parser inside the model), for DNS-name hosts: `lru_stems(u)` (empty
-path stems aside) is a prefix of `lru_stems(v)` and `url_to_lru(u)` (cleaned) a string prefix —
-`split_suffix` being suffix_trie.py on any suffix list -/
+/-- **`url_to_lru(u)` itself (empty path stems kept) is a string prefix of `url_to_lru(v)`**,
+`suffix_aware = True`, suffix_trie.py inside, for `UnderRaw` -/
+theorem lru_prefix_of_under_raw_psl (lines : List Str) (u v : Parts)
+    (hwu : wfNetloc u.netloc = true) (hwv : wfNetloc v.netloc = true)
+    (hnu : noUserinfo u.netloc = true)
+    (hhosts : specHost u.netloc = specHost v.netloc ∨ PslNames lines u.netloc v.netloc)
+    (hbu : noBar u = true) (hbv : noBar v = true) (h : UnderRaw u v) :
+    serializeLru (lruStems (pslSplit lines) true u) <+:
+      serializeLru (lruStems (pslSplit lines) true v) := by
+  have ou := stems_ok_psl lines true u hbu
+  have ov := stems_ok_psl lines true v hbv
+  rw [serialize_prefix_iff _ _ ou.ne ov.ne ou.nobar ov.nobar]
+  exact stems_prefix_of_under_raw_psl lines u v hwu hwv hnu hhosts h
+
+/-- **on URL strings** (the parser inside the model): `lru_stems(u)` (empty path stems aside) is a
+prefix of `lru_stems(v)` and the serialisation of the cleaned stems a string prefix —
+`split_suffix` being suffix_trie.py on any suffix list; hosts equal (whatever they are), or
+`PslNames` -/
 theorem lru_prefix_of_under_psl_string (lines : List Str) (u v : Str) (hbu : '|' ∉ u) (hbv : '|' ∉ v)
     (pu pv : Parts) (hu : urlParts u = some pu) (hv : urlParts v = some pv)
     (hwu : wfNetloc pu.netloc = true) (hwv : wfNetloc pv.netloc = true)
     (hnu : noUserinfo pu.netloc = true)
-    (hdu : dnsName (specHost pu.netloc) = true) (hdv : dnsName (specHost pv.netloc) = true)
     (hhosts : specHost pu.netloc = specHost pv.netloc ∨ PslNames lines pu.netloc pv.netloc)
     (h : Under pu pv) :
     ∃ su sv, lruStemsUrl (pslSplit lines) true u = some su ∧
@@ -406,8 +588,48 @@ theorem lru_prefix_of_under_psl_string (lines : List Str) (u v : Str) (hbu : '|'
       serializeLru (cleanTrailingPath su) <+: serializeLru (cleanTrailingPath sv) :=
   ⟨_, _, stemsUrl_of_parts _ true hu, stemsUrl_of_parts _ true hv,
     stems_prefix_of_under_psl lines pu pv hwu hwv hnu hhosts h,
-    lru_prefix_of_under_psl lines pu pv hwu hwv hnu hhosts (splitLaw_psl lines _ hwu hdu)
-      (splitLaw_psl lines _ hwv hdv) (C12.noBar_of_url hu hbu) (C12.noBar_of_url hv hbv) h⟩
+    lru_prefix_of_under_psl lines pu pv hwu hwv hnu hhosts (C12.noBar_of_url hu hbu)
+      (C12.noBar_of_url hv hbv) h⟩
+
+/-- **forward for the real `lru_stems` / `url_to_lru`, on URL strings, `suffix_aware = True`**,
+suffix_trie.py inside: for `UnderRaw`, `lru_stems(u)` is a prefix of `lru_stems(v)` and the string
+`url_to_lru(u)` a prefix of the string `url_to_lru(v)` -/
+theorem url_to_lru_prefix_of_under_psl_string (lines : List Str) (u v : Str) (hbu : '|' ∉ u)
+    (hbv : '|' ∉ v) (pu pv : Parts) (hu : urlParts u = some pu) (hv : urlParts v = some pv)
+    (hwu : wfNetloc pu.netloc = true) (hwv : wfNetloc pv.netloc = true)
+    (hnu : noUserinfo pu.netloc = true)
+    (hhosts : specHost pu.netloc = specHost pv.netloc ∨ PslNames lines pu.netloc pv.netloc)
+    (h : UnderRaw pu pv) :
+    ∃ su sv lu lv, lruStemsUrl (pslSplit lines) true u = some su ∧
+      lruStemsUrl (pslSplit lines) true v = some sv ∧
+      urlToLru (pslSplit lines) true u = some lu ∧ urlToLru (pslSplit lines) true v = some lv ∧
+      su <+: sv ∧ lu <+: lv :=
+  ⟨_, _, _, _, stemsUrl_of_parts _ true hu, stemsUrl_of_parts _ true hv,
+    urlToLru_of_parts _ true hu, urlToLru_of_parts _ true hv,
+    stems_prefix_of_under_raw_psl lines pu pv hwu hwv hnu hhosts h,
+    lru_prefix_of_under_raw_psl lines pu pv hwu hwv hnu hhosts (C12.noBar_of_url hu hbu)
+      (C12.noBar_of_url hv hbv) h⟩
+
+/-- **stem-list prefix ⇔ string prefix of `url_to_lru`, both modes**, for the LRUs of two `|`-free
+URL strings — no grammar restriction, `split_suffix` being suffix_trie.py on any suffix list
+(`url_to_lru_prefix_iff` is the statement for `suffix_aware = False` and any `split_suffix`) -/
+theorem url_to_lru_prefix_iff_psl (lines : List Str) (sa : Bool) (u v : Str) (hbu : '|' ∉ u)
+    (hbv : '|' ∉ v) (su sv : List Str)
+    (hsu : lruStemsUrl (pslSplit lines) sa u = some su)
+    (hsv : lruStemsUrl (pslSplit lines) sa v = some sv) :
+    ∃ lu lv, urlToLru (pslSplit lines) sa u = some lu ∧ urlToLru (pslSplit lines) sa v = some lv ∧
+      (lu <+: lv ↔ su <+: sv) := by
+  have nbn : ∀ {w : Str} {p : Parts}, urlParts w = some p → '|' ∉ w → '|' ∉ p.netloc := by
+    intro w p hp hb hm
+    have nb := C12.noBar_of_url hp hb
+    simp only [noBar, Bool.and_eq_true] at nb
+    have := noneOf_iff.mp nb.1.1.1.2 _ hm
+    simp at this
+  obtain ⟨ou, eu, _⟩ := C12.serialization_string_of_split (pslSplit lines) sa u hbu
+    (fun _ p hp => split_nobar_psl lines (nbn hp hbu)) su hsu
+  obtain ⟨ov, ev, _⟩ := C12.serialization_string_of_split (pslSplit lines) sa v hbv
+    (fun _ p hp => split_nobar_psl lines (nbn hp hbv)) sv hsv
+  exact ⟨_, _, eu, ev, serialize_prefix_iff su sv ou.ne ov.ne ou.nobar ov.nobar⟩
 
 /-! ## non-vacuity, and the region that is excluded -/
 
@@ -453,6 +675,23 @@ theorem kf_inside_suffix_psl :
     (Under (urlOf "kawasaki.jp") (urlOf "city.kawasaki.jp") ∧
       ¬ (cleanTrailingPath (lruStems (pslSplit demoLines) true (urlOf "kawasaki.jp")) <+:
           cleanTrailingPath (lruStems (pslSplit demoLines) true (urlOf "city.kawasaki.jp")))) := by
+  decide +kernel
+
+/-- **the suffix-aware converse really needs C08's clause** (`under_of_stems_prefix_sa`, hypotheses
+`SplitLaw`): suffix_trie.py strips trailing dots, so `http://a.co.uk.` has the suffix-aware stems
+of `http://a.co.uk` — a prefix of the stems of `http://a.co.uk/x`, which does not lie under it (the
+hosts differ by the root label).  The same loss as KF-C12-2; trailing-dot hosts are outside the
+universe of C13 -/
+theorem converse_needs_splitLaw :
+    cleanTrailingPath (lruStems (pslSplit demoLines) true (urlOf "a.co.uk.")) <+:
+      cleanTrailingPath (lruStems (pslSplit demoLines) true
+        { urlOf "a.co.uk" with path := "/x".toList }) ∧
+    ¬ UnderBy lower (urlOf "a.co.uk.") { urlOf "a.co.uk" with path := "/x".toList } ∧
+    ¬ SplitLaw (pslSplit demoLines) (urlOf "a.co.uk.").netloc := by
+  refine ⟨by decide +kernel, by decide +kernel, ?_⟩
+  intro h
+  have := h "a".toList "co.uk".toList (by decide +kernel)
+  revert this
   decide +kernel
 
 end Ural.Props.C13
